@@ -466,7 +466,8 @@ func (m *Mint) MintTokens(mintTokensRequest nut04.PostMintBolt11Request) (cashu.
 		// update mint quote to previous state if there was an error
 		if err != nil {
 			if err := m.db.UpdateMintQuoteState(mintQuote.Id, previousState); err != nil {
-				return nil, err
+				errmsg := fmt.Sprintf("error updating mint quote state: %v", err)
+				return nil, cashu.BuildCashuError(errmsg, cashu.DBErrCode)
 			}
 			return nil, err
 		}
